@@ -60,6 +60,12 @@ type monC11 struct {
 // id: "v<2|3>/<pair>/<q|noq>/init<A|B>/S<starts>/T<traffic>"
 func verifC11Sys(id string, seed int64) *verifSys {
 	parts := strings.Split(id, "/")
+	hist := ""
+	if len(parts) == 7 {
+		// how the session came about: "Hr" = refresh of a running session, "Ha" = A ended, its disconnect message was
+		// lost, B (still encrypted) asked again; default: first exchange of the conversation
+		hist, parts = parts[6], parts[:6]
+	}
 	if len(parts) != 6 {
 		return nil
 	}
@@ -95,6 +101,20 @@ func verifC11Sys(id string, seed int64) *verifSys {
 	sys := &verifSys{Prop: "C11", ID: id, Seed: seed}
 	sys.Init = func() *verifWorld {
 		w := verifEstablished(seed, v, 0)
+		switch hist {
+		case "Hr":
+			verifTick(w.P[0].C)
+			verifTick(w.P[1].C)
+			w.Q[0] = append(w.Q[0], w.P[1].Query())
+		case "Ha":
+			w.P[0].End() // the disconnect message never arrives
+			verifTick(w.P[0].C)
+			verifTick(w.P[1].C)
+			w.Q[0] = append(w.Q[0], w.P[1].Query())
+		}
+		if hist != "" && (!w.deliverAll(40, nil) || !w.P[0].C.IsEncrypted() || !w.P[1].C.IsEncrypted()) {
+			panic("verif: C11 setup failed for " + id)
+		}
 		w.P[0].Rec.take()
 		w.P[1].Rec.take()
 		w.Mon = &monC11{Init: init, Starts: starts, Traffic: traffic, Ticks: 1, LastEv: [2]int{-1, -1}, Mode: mode, Cur: init}
@@ -516,7 +536,7 @@ func init() {
 			return fs
 		},
 		Run: func(r *verifReport) {
-			r.Rule = "honest world: for every secret pair (empty, equal, case / last-bit / NUL-suffix / prefix differences, 1000-byte, binary) × with/without question × either initiator × v2/v3: explicit-state exploration of all interleavings of SMP steps, the answer, a budget of chat texts either way (forcing key rotation) and a clock tick, with 1 or 2 StartAuthenticate calls by the initiator (back-to-back); oracle: success on both sides ⇔ secrets byte-equal, never success otherwise, failure on the responder and failure/abort on the initiator, the secret asked for exactly once per run, no chat text lost. Relay world: A–M1 and M2–B separately keyed, M forwards every SMP TLV it decrypts (with the attacker's own key, and with the relay's conversations holding the honest parties' own long-term keys, i.e. other instances of the same identities): no success on A or B for every pair, initiator, question, version (each run must reach a verdict)"
+			r.Rule = "honest world: for every secret pair (empty, equal, case / last-bit / NUL-suffix / prefix differences, 1000-byte, binary) × with/without question × either initiator × v2/v3: explicit-state exploration of all interleavings of SMP steps, the answer, a budget of chat texts either way (forcing key rotation) and a clock tick, with 1 or 2 StartAuthenticate calls by the initiator (back-to-back), a further StartAuthenticate at any moment by either side (S2r / S2x), in sessions that came about by a first exchange, by a refresh (Hr) and by a re-key after one side ended and its disconnect was lost (Ha); oracle: success on both sides ⇔ secrets byte-equal, never success otherwise, failure on the responder and failure/abort on the initiator, the secret asked for exactly once per run, no chat text lost. Relay world: A–M1 and M2–B separately keyed, M forwards every SMP TLV it decrypts (with the attacker's own key, and with the relay's conversations holding the honest parties' own long-term keys, i.e. other instances of the same identities): no success on A or B for every pair, initiator, question, version (each run must reach a verdict)"
 			r.Assumptions = []string{"one initiator per configuration (simultaneous initiation by both sides is not a run of the protocol)", "the relay opens data messages with package-internal key material of its own conversations"}
 			pairs := c11Pairs()
 			var ids []string
@@ -528,13 +548,23 @@ func init() {
 					ids = append(ids, fmt.Sprintf("v%d/%s/%s/init%c/S1/T1", v, p.Name, q, ini))
 				}
 				ids = append(ids, "v3/a-a/noq/initA/S2/T0", "v2/a-b/q/initB/S2/T0", "v2/a-a/q/initB/S1/T2",
-					"v3/a-a/q/initA/S2r/T0", "v2/a-a/noq/initB/S2x/T0", "v3/a-b/noq/initB/S2r/T0", "v2/a-b/q/initA/S2x/T0")
+					"v3/a-a/q/initA/S2r/T0", "v2/a-a/noq/initB/S2x/T0", "v3/a-b/noq/initB/S2r/T0", "v2/a-b/q/initA/S2x/T0",
+					"v3/a-a/noq/initA/S1/T0/Hr", "v2/a-a/q/initB/S1/T0/Ha", "v3/a-a/q/initB/S1/T0/Ha", "v2/a-b/noq/initA/S1/T0/Hr")
 			} else {
 				for _, p := range pairs {
 					for _, v := range []int{2, 3} {
 						for _, q := range []string{"q", "noq"} {
 							for _, ini := range []string{"A", "B"} {
 								ids = append(ids, fmt.Sprintf("v%d/%s/%s/init%s/S1/T1", v, p.Name, q, ini))
+							}
+						}
+					}
+				}
+				for _, p := range []string{"a-a", "a-b"} {
+					for _, v := range []int{2, 3} {
+						for _, h := range []string{"Hr", "Ha"} {
+							for _, ini := range []string{"A", "B"} {
+								ids = append(ids, fmt.Sprintf("v%d/%s/noq/init%s/S1/T1/%s", v, p, ini, h))
 							}
 						}
 					}
